@@ -76,6 +76,7 @@ type Orch struct {
 	KnownHit map[string]int
 	Extra    map[string]any
 	slow     []string
+	lastSeqs map[int64]int // final sequence number -> number of workers that ended on it
 	mu       sync.Mutex
 }
 
@@ -239,6 +240,10 @@ func Orchestrate(root, id, tier string) int {
 	if len(fresh) == 0 {
 		if o.Merged.Counters["worker_hang"] > 0 && p.HangFails {
 			inconclusive = "a worker hung (a loop that never polls the context cannot be told from slowness)"
+		} else if len(o.lastSeqs) > 1 {
+			// every worker enumerates the same case list and runs its residue class; different list lengths mean the
+			// enumeration depended on worker-local state, so some cases ran twice and others never
+			inconclusive = fmt.Sprintf("harness: the workers enumerated case lists of different lengths %v; the partition of cases is not exact", o.lastSeqs)
 		} else if nontrivial < p.MinNontrivial {
 			inconclusive = fmt.Sprintf("only %d distinct non-trivial cases observed (minimum %d)", nontrivial, p.MinNontrivial)
 		}
@@ -312,6 +317,12 @@ func (o *Orch) runShard(i, n int) {
 			}
 		}
 		if err == nil && st.Finished {
+			o.mu.Lock()
+			if o.lastSeqs == nil {
+				o.lastSeqs = map[int64]int{}
+			}
+			o.lastSeqs[st.LastSeq]++
+			o.mu.Unlock()
 			return
 		}
 		// the worker died: identify the case from the journal
